@@ -99,6 +99,7 @@ let run_case acc ~(family : (string * string) list list) ~(use_readers : bool) (
   let spec_vals = merged_spec family in
   let sp = Rd.spec_create (Array.of_list (List.map (fun key -> (key, "")) spec_keys)) k in
   let failed = ref false in
+  let prev_out = ref None in
   (try
      List.iteri (fun nstep op ->
        let (ie, intact) = Rd.impl_step it op in
@@ -113,7 +114,17 @@ let run_case acc ~(family : (string * string) list list) ~(use_readers : bool) (
        if me <> ie then begin
          fail acc ~kind:"model_mismatch" ~what:"[C04,C05] merger iterator step result" (JO [ "case", case (); "step", JI nstep; "impl", JS (show_e ie); "model", JS (show_e me) ]);
        end;
-       (* specification *)
+       (* specification: entries with equal keys come in the order the dupsort function defines *)
+       (match op, ie with
+        | Rd.Next, Some (ik, iv) ->
+          (match !prev_out with
+           | Some (pk, pv) when pk = ik && (not o.merge) && o.dupsort <> 0 && o.fail_at = 0 ->
+             let c = compare pv iv in
+             if (if o.dupsort = 2 then c < 0 else c > 0) then
+               fail acc ~kind:"spec_violation" ~what:"[C04] entries with equal keys are not ordered by the dupsort function" (JO [ "case", case (); "step", JI nstep ])
+           | _ -> ());
+          prev_out := Some (ik, iv)
+        | _ -> prev_out := None);
        let se = Rd.spec_step sp op in
        if o.fail_at = 0 then begin
          (match ie, se with
